@@ -17,6 +17,26 @@
 #include "core/eval_expression.h"
 #include "core/tokens.h"
 #include "core/Operator.h"
+#include "core/print_error.h"
+
+// Parentheses nest by recursion, the limit keeps a line of '(' from
+// exhausting the stack.
+#define MAX_PAREN_DEPTH 100
+
+static int paren_depth = 0;
+
+static int paren_enter(AsmContext *asm_context)
+{
+  if (paren_depth >= MAX_PAREN_DEPTH)
+  {
+    print_error(asm_context, "Parentheses are nested too deep");
+    return -1;
+  }
+
+  paren_depth++;
+
+  return 0;
+}
 
 int EvalExpression::run(AsmContext *asm_context, Var &answer, bool is_paren)
 {
@@ -65,7 +85,10 @@ int EvalExpression::run(AsmContext *asm_context, Var &answer, bool is_paren)
       }
 
       Var var;
-      if (run(asm_context, var, true) != 0) { return -1; }
+      if (paren_enter(asm_context) != 0) { return -1; }
+      int ret = run(asm_context, var, true);
+      paren_depth--;
+      if (ret != 0) { return -1; }
       var_stack.push(var);
       count++;
     }
@@ -267,7 +290,10 @@ int EvalExpression::parse_unary_new(AsmContext *asm_context, Var &answer)
     else
   if (IS_TOKEN(token, '('))
   {
-    if (run(asm_context, answer, true) != 0) { return -1; }
+    if (paren_enter(asm_context) != 0) { return -1; }
+    int ret = run(asm_context, answer, true);
+    paren_depth--;
+    if (ret != 0) { return -1; }
   }
     else
   if (IS_TOKEN(token, '~'))
